@@ -19,7 +19,9 @@ Lemma dispatch_bytes : PT_Handshake = 1 /\ PT_Heartbeat = 3.
 Proof. split; reflexivity. Qed.
 
 (* which tree is this?  The registry-API probe (Register; UpdateAuth 100; UpdateAuth 200) on the real code decides. *)
-Definition tree_variant : variant := if probe_reauth_keeps_old_index then Pinned else Current.
+(* ... and the registry-API probe (Register; Register again with the same stream) tells Head from the repaired tree *)
+Definition tree_variant : variant :=
+  if probe_reauth_keeps_old_index then Pinned else if probe_rereg_closes_shared_stream then Head else Current.
 Definition probe_cfg : cfg := {| maxConn := 0; maxCtl := 0; hbTimeout := 2 |}.
 
 Lemma reauth_probe_matches_model :
@@ -36,4 +38,21 @@ Lemma evict_probe_matches_model :
   && (match by_conn s 2 with Some _ => true | None => false end)
   && (match by_conn s 3 with Some _ => true | None => false end).
 Proof. vm_compute. reflexivity. Qed.
+Lemma rereg_probe_matches_model :
+  (if probe_reauth_keeps_old_index then true else
+   Bool.eqb (mem 1 (closed (run tree_variant probe_cfg init [Accept 1; RegRaw 1 0; ReReg 1 9]))) probe_rereg_closes_shared_stream) = true.
+Proof. vm_compute. reflexivity. Qed.
+
+(* The theorems treat every ClientRegistry method as ONE critical section.  The shapes are read from client_registry.go with
+   go/ast on every run: each method acquires the mutex at most once and every access to connMap / clientIDMap lies inside
+   that section (or the method is a *Locked helper called with the mutex held); the mutating methods hold the write lock
+   for their whole body (Lock + defer Unlock), KickOldConnection / CleanupStale do their map work in one Lock..Unlock pair
+   and their I/O after it. *)
+Lemma registry_methods_are_single_critical_sections :
+  forallb (fun sh => (sh <=? 4)) registry_lock_shapes = true /\
+  shape_Register = 1 /\ shape_UpdateAuth = 1 /\ shape_ReconcileIndex = 1 /\ shape_Remove = 1 /\ shape_Unregister = 1 /\
+  shape_Close = 1 /\ shape_KickOldConnection = 2 /\ shape_CleanupStale = 2 /\
+  shape_GetByClientID = 3 /\ shape_GetByConnID = 3 /\ shape_Count = 3 /\ shape_List = 3 /\ shape_ListAuthenticated = 3 /\
+  shape_removeConnectionLocked = 0 /\ shape_findOldestConnectionLocked = 0 /\ shape_dropStaleIndexLocked = 0.
+Proof. vm_compute. repeat split; reflexivity. Qed.
 Close Scope N_scope.
